@@ -73,7 +73,7 @@ theorem exchangeNames_spec (m : Mgr) (x : Nat) (vx vy : String)
 /-- what holds when `swap` reaches its rooted collection -/
 structure SwapPrePost (m : Mgr) (x : Nat) (ox oy : List Nat) (g xf : List Nat) (m' : Mgr) : Prop where
   inv : Inv m'
-  varsOK : VarsOK m'.tbl
+  varsOK : OrderOK m'.tbl
   exch : Exch m m' x
   /-- the node table is the swapped old table -/
   rel : SwapRel m.tbl m'.tbl x (fun _ => False)
@@ -109,7 +109,7 @@ theorem Mid.toInv {m0 m : Mgr} {x : Nat} (hI : Inv m0) (hx : x + 1 < m0.nvars)
 /-- **`swap` up to the rooted collection.**  For every iteration order of the two levels the node
 surgery and the exchange of the names succeed; the invariant holds again and every old reference
 denotes the same function of the variable names. -/
-theorem swapPre_spec (m : Mgr) (hI : Inv m) (hV : VarsOK m.tbl)
+theorem swapPre_spec (m : Mgr) (hI : Inv m) (hV : OrderOK m.tbl)
     (hoff : m.ctx = false ∨ m.lastLen = none) (x : Nat) (hx : x + 1 < m.nvars)
     (ox oy : List Nat) (hox : LevelOrder m.tbl x ox) (hoy : LevelOrder m.tbl (x + 1) oy) :
     ∃ g xf m5 m6, swapNodes x (x + 1) ox oy m =
@@ -122,10 +122,12 @@ theorem swapPre_spec (m : Mgr) (hI : Inv m) (hV : VarsOK m.tbl)
   obtain ⟨vy, hvy, _⟩ := hV.name_at (i := x + 1) hx
   have hl5 : m5.tbl.l2v = m.tbl.l2v := hM.frame.l2v
   have hv5 : m5.tbl.vars = m.tbl.vars := hM.frame.vars
-  have hV5 : VarsOK m5.tbl := by
-    refine ⟨fun v i => ?_, fun i => ?_⟩
+  have hV5 : OrderOK m5.tbl := by
+    have hn5 : m5.tbl.nvars = m.tbl.nvars := hM.rel.nvars
+    refine ⟨fun v i => ?_, fun v i => ?_, fun i => ?_⟩
     · rw [hl5, hv5]; exact hV.inv v i
-    · rw [hl5]; show _ ↔ i < m5.tbl.vars.size; rw [hv5]; exact hV.dom i
+    · rw [hv5, hn5]; exact hV.lt v i
+    · rw [hl5, hn5]; exact hV.total i
   have hvx5 : m5.tbl.l2v[x]? = some vx := by rw [hl5]; exact hvx
   have hvy5 : m5.tbl.l2v[x + 1]? = some vy := by rw [hl5]; exact hvy
   have hex := exchangeNames_spec m5 x vx vy hvx5 hvy5
